@@ -40,6 +40,9 @@ type Case struct {
 	// Intense (failing-input search): more live queries and operations, three times as many undecodable
 	// events, events held back longer, writes issued while queries are still on their first run.
 	Intense bool `json:"intense,omitempty"`
+	// Burst: before the ordinary history, more row events than the binlog reader's update queue holds
+	// (1024) are delivered at once while the applying goroutine is held back by an update delay.
+	Burst bool `json:"burst,omitempty"`
 }
 
 const database = "testdb"
@@ -652,6 +655,33 @@ func runCase(schema *sqlgen.Schema, c Case) (res *result) {
 		}
 	}()
 
+	if c.Burst {
+		vb.SetUpdateDelay(400 * time.Millisecond)
+		for i := 0; i < 1100; i++ {
+			var err error
+			if r.Chance(60) {
+				_, err = ldb.UpsertRow(bg, genUser(r, int64(1+r.Intn(6))))
+			} else {
+				_, err = ldb.UpsertRow(bg, genItem(r, itemKeys[r.Intn(len(itemKeys))]))
+			}
+			if err != nil {
+				res.fail("harness-write-failed", err.Error())
+				return
+			}
+		}
+		deliver(1 << 20)
+		time.Sleep(30 * time.Millisecond)
+		vb.SetUpdateDelay(0)
+		res.hist = append(res.hist, "burst:1100-events-against-a-held-applier")
+		userIDs, itemIDs = map[int64]bool{}, map[string]bool{}
+		for _, row := range srv.Rows("users") {
+			userIDs[row[0].(int64)] = true // id and key are the first struct columns
+		}
+		for _, row := range srv.Rows("items") {
+			itemIDs[row[0].(string)] = true
+		}
+	}
+
 	// write history
 	nops := 3 + r.Intn(8)
 	if c.Intense {
@@ -817,9 +847,19 @@ func runCase(schema *sqlgen.Schema, c Case) (res *result) {
 	// quiescence: every delivered event has reached the tracker, and every live query's current
 	// registration is the one its latest completed run made and has not been invalidated
 	deadline := time.Now().Add(4 * time.Second)
+	stallLimit := 250 * time.Millisecond
+	if c.Burst { // the applier is held for 400ms and then has 1100 updates to work through
+		deadline = time.Now().Add(10 * time.Second)
+		stallLimit = 1500 * time.Millisecond
+	}
 	stalledSince := time.Time{}
+	lastProcessed := -1
 	for {
 		e.mu.Lock()
+		if e.processed != lastProcessed { // progress at the tracker: not stalled
+			lastProcessed = e.processed
+			stalledSince = time.Time{}
+		}
 		allProcessed := len(e.inflight) == 0
 		settled := true
 		for _, q := range e.queries {
@@ -835,14 +875,14 @@ func runCase(schema *sqlgen.Schema, c Case) (res *result) {
 			// events stuck in flight: dropped by RunPollLoop (the defect F20) or still on their way
 			if stalledSince.IsZero() {
 				stalledSince = time.Now()
-			} else if time.Since(stalledSince) > 250*time.Millisecond {
+			} else if time.Since(stalledSince) > stallLimit {
 				break
 			}
 		} else {
 			stalledSince = time.Time{}
 		}
 		if time.Now().After(deadline) {
-			res.fail("no-quiescence", "live queries did not settle within 4s")
+			res.fail("no-quiescence", "live queries did not settle in time")
 			break
 		}
 		time.Sleep(500 * time.Microsecond)
@@ -957,7 +997,7 @@ func main() {
 			}
 		}
 		for len(cases) < o.N {
-			cases = append(cases, Case{Seed: r.U64(), Intense: true, Origin: "search"})
+			cases = append(cases, Case{Seed: r.U64(), Intense: true, Burst: r.Chance(3), Origin: "search"})
 		}
 	} else if o.Replay != "" {
 		var c Case
@@ -974,7 +1014,7 @@ func main() {
 			}
 		}
 		for i := 0; i < o.N; i++ {
-			cases = append(cases, Case{Seed: r.U64(), Origin: "generated"})
+			cases = append(cases, Case{Seed: r.U64(), Burst: i%125 == 62, Origin: "generated"}) // 4 bursts per 500 histories
 		}
 	}
 
